@@ -1,7 +1,7 @@
 """C10 - mulgrid consistency.  Rules PAIR(+BACKREF), NBRSYM, COUPLE, REFRESH, NAMEKEY, REKEY."""
 import ast
-from ..core import AnalysisError, norm, dotted, call_name, walk_no_nested, is_self_attr
-from .. import flow
+from ..core import parent_map, AnalysisError, norm, dotted, call_name, walk_no_nested, is_self_attr
+from .. import flow, roles
 from ..containers import PAIRS
 from .c08 import pair_rule, namekey_rule, rule_rekey
 
@@ -26,16 +26,41 @@ def rule_pair(run):
     pair_rule(run, MODS + ['t2grids', 't2data'], set(['mulgrid']), floor=20)
 
 
-def rule_nbrsym(run):
+def rule_nbrsym(run, only=None, floor=3):
     run.rule('NBRSYM', 'every add/remove on a column neighbour set is matched by the symmetric update in the '
-             'same function', floor=3)
+             'same function', floor=floor)
     prog = run.prog
     for fi in prog.all_functions(MODS):
+        if only is not None and fi.name not in only: continue
         ops = []
         for n in walk_no_nested(fi.node):
             if isinstance(n, ast.Call) and isinstance(n.func, ast.Attribute) and n.func.attr in ('add', 'remove', 'discard') \
                and isinstance(n.func.value, ast.Attribute) and n.func.value.attr == 'neighbour' and len(n.args) == 1:
                 ops.append((norm(n.func.value.value), n.func.attr, norm(n.args[0]), n))
+        # bulk forms: X.neighbour.update(S) / X.neighbour |= S (and the difference forms) touch one side only; the other side
+        # must be a loop over the same S doing the element-wise symmetric update
+        bulk = []
+        for n in walk_no_nested(fi.node):
+            if isinstance(n, ast.Call) and isinstance(n.func, ast.Attribute) and n.func.attr in ('update', 'difference_update') \
+               and isinstance(n.func.value, ast.Attribute) and n.func.value.attr == 'neighbour' and len(n.args) == 1:
+                bulk.append((norm(n.func.value.value), 'add' if n.func.attr == 'update' else 'remove', n.args[0], n))
+            if isinstance(n, ast.AugAssign) and isinstance(n.op, (ast.BitOr, ast.Sub)) and isinstance(n.target, ast.Attribute) and n.target.attr == 'neighbour':
+                bulk.append((norm(n.target.value), 'add' if isinstance(n.op, ast.BitOr) else 'remove', n.value, n))
+        for a, op, sexp, n in bulk:
+            kb = '%s :: bulk neighbour update `%s`' % (fi.short, norm(n)[:60])
+            stext = norm(sexp)
+            alt = ('remove', 'discard') if op == 'remove' else ('add',)
+            matched = False
+            for l in walk_no_nested(fi.node):
+                if isinstance(l, ast.For) and isinstance(l.target, ast.Name) and norm(l.iter) == stext:
+                    for c in ast.walk(l):
+                        if isinstance(c, ast.Call) and isinstance(c.func, ast.Attribute) and c.func.attr in alt and isinstance(c.func.value, ast.Attribute) \
+                           and c.func.value.attr == 'neighbour' and norm(c.func.value.value) == l.target.id and len(c.args) == 1 and norm(c.args[0]) == a:
+                            matched = True
+            if matched: run.ok(kb, where=fi.where(n))
+            else:
+                run.violated(kb, '%s.neighbour gains/loses the whole of `%s` but no loop over `%s` updates the neighbour set of each of its '
+                             'members with %s: the neighbour relation becomes one-sided' % (a, stext, stext, a), where=fi.where(n))
         if not ops: continue
         key = '%s :: neighbour updates' % fi.short
         seen = set((a, op, b) for a, op, b, _ in ops)
@@ -48,6 +73,15 @@ def rule_nbrsym(run):
             loops = [l for l in walk_no_nested(fi.node) if isinstance(l, ast.For) and isinstance(l.target, ast.Name)
                      and l.target.id == a and norm(l.iter) == b + '.neighbour']
             if loops and op in ('remove', 'discard') and fi.name.startswith('delete_'): continue
+            # the other side is done in bulk: `b.neighbour.update(S)` with this call inside `for a in S`
+            pm_ = parent_map(fi.node)
+            encl = []
+            cur = n
+            while cur in pm_:
+                cur = pm_[cur]
+                if isinstance(cur, ast.For) and isinstance(cur.target, ast.Name) and cur.target.id == a: encl.append(norm(cur.iter))
+            want = 'add' if op == 'add' else 'remove'
+            if any(ba == b and bop == want and norm(bs) in encl for ba, bop, bs, _ in bulk): continue
             bad.append((a, op, b, n))
         if bad:
             a, op, b, n = bad[0]
@@ -417,7 +451,26 @@ def rule_laycount(run):
                     if isinstance(cur, ast.For) and 'column' in norm(cur.iter): return True
                 return False
             full = [c for c in rc if call_name(c) == 'set_default_surface' or in_column_loop(c)]
-            if full: run.ok(key, norm(full[0]), where=fi.where(full[0]))
+            # ... of the geometry whose layers were rebuilt, not of another one that happens to be at hand
+            def loop_owner(c):
+                cur = c
+                while cur in pm:
+                    cur = pm[cur]
+                    if isinstance(cur, ast.For) and 'column' in norm(cur.iter):
+                        it = cur.iter
+                        while isinstance(it, ast.Attribute): it = it.value
+                        direct = c.args and isinstance(c.args[0], ast.Name) and isinstance(cur.target, ast.Name) and c.args[0].id == cur.target.id
+                        return it.id if isinstance(it, ast.Name) and it is not cur.iter and direct else None
+                return None
+            owner = norm(rebuilds[-1].func.value)
+            params = set(a.arg for a in fi.node.args.args)
+            foreign = [c for c in full if call_name(c) == 'set_column_num_layers' and loop_owner(c) in params - set([owner])
+                       and isinstance(c.func, ast.Attribute) and norm(c.func.value) == owner]
+            if foreign and len(foreign) == len(full):
+                run.violated(key, 'the layers of `%s` are rebuilt but the recount `%s` runs over the columns of `%s`: the columns of `%s` keep '
+                             'their old layer counts (and those of `%s` are overwritten)' % (owner, norm(foreign[0]), loop_owner(foreign[0]), owner,
+                                                                                           loop_owner(foreign[0])), where=fi.where(foreign[0]), robust=True)
+            elif full: run.ok(key, norm(full[0]), where=fi.where(full[0]))
             else:
                 run.violated(key, 'the layers are rebuilt (%s) but the columns are not recounted with set_column_num_layers afterwards: a column '
                              'whose surface lies inside the changed layers keeps a layer count that no longer matches its surface'
@@ -447,8 +500,82 @@ def _blocks_of(fnode):
     return out
 
 
+def rule_nodeowner(run):
+    run.rule('NODEOWNER', 'add_column() registers the new column in the `column` set of each of its nodes: the nodes handed to a column that is '
+             'added to geometry G are taken from G\'s own node dictionary / list, not from another geometry\'s (whose nodes would then '
+             'list a column of a foreign geometry)', floor=4)
+    prog = run.prog
+    nsite = 0
+    for fi in sorted(prog.all_functions(MODS), key=lambda f: f.qual):
+        body = list(walk_no_nested(fi.node))
+        once = {}
+        for nm, v, st in roles.assignments(fi.node): once.setdefault(nm, []).append(v)
+        appends = {}
+        for c in body:
+            if isinstance(c, ast.Call) and isinstance(c.func, ast.Attribute) and c.func.attr == 'append' and isinstance(c.func.value, ast.Name) and len(c.args) == 1:
+                appends.setdefault(c.func.value.id, []).append(c.args[0])
+
+        def owner_of(e, depth=0):
+            """R for `R.node[..]` / `R.nodelist[..]`; through a local bound once; None if not syntactic"""
+            if isinstance(e, ast.Subscript) and isinstance(e.value, ast.Attribute) and e.value.attr in ('node', 'nodelist') and isinstance(e.value.value, ast.Name):
+                return e.value.value.id
+            if isinstance(e, ast.Name) and len(once.get(e.id, [])) == 1 and depth < 3: return owner_of(once[e.id][0], depth + 1)
+            return None
+
+        def elements(n, depth=0):
+            if isinstance(n, ast.ListComp): return [n.elt]
+            if isinstance(n, (ast.List, ast.Tuple)): return list(n.elts)
+            if isinstance(n, ast.Name) and depth < 3:
+                out = list(appends.get(n.id, []))
+                for v in once.get(n.id, []): out += elements(v, depth + 1)
+                return out
+            return []
+        for c in body:
+            if not (isinstance(c, ast.Call) and isinstance(c.func, ast.Attribute) and c.func.attr == 'add_column' and isinstance(c.func.value, ast.Name) and len(c.args) == 1):
+                continue
+            G = c.func.value.id
+            arg = c.args[0]
+            if isinstance(arg, ast.Name) and len(once.get(arg.id, [])) == 1: arg = once[arg.id][0]
+            if not (isinstance(arg, ast.Call) and call_name(arg) == 'column' and len(arg.args) >= 2): continue
+            owners = set(o for o in (owner_of(e) for e in elements(arg.args[1])) if o is not None)
+            if not owners: continue
+            nsite += 1
+            key = '%s :: nodes of the column added to `%s` come from `%s`' % (fi.short, G, G)
+            foreign = sorted(owners - set([G]))
+            if foreign:
+                run.violated(key, 'the column is added to `%s` but its nodes are looked up in `%s.node`: add_column() then records the new column in the '
+                             'node objects of `%s`, which end up listing a column that is not in their geometry (check() reports bogus missing '
+                             'connections, refine() raises KeyError)' % (G, foreign[0], foreign[0]), where=fi.where(c), robust=True)
+            else: run.ok(key, where=fi.where(c))
+    run.ok('add_column sites with syntactic node owners', {'sites': nsite})
+
+
+def rule_validexit(run):
+    run.rule('VALIDEXIT', 'an operation that ends by repairing the mesh (`<geometry>.check(fix=True)`: missing connections added, extra ones and '
+             'orphan nodes removed) does so on every path to a normal return - in particular on the path where it finds nothing of its '
+             'own to do, because the debris it promises to remove may have been left by earlier low-level edits', floor=3)
+    prog = run.prog
+    n = 0
+    for fi in sorted(prog.all_functions(MODS), key=lambda f: f.qual):
+        fixes = [st for st in walk_no_nested(fi.node) if isinstance(st, ast.Expr) and isinstance(st.value, ast.Call) and call_name(st.value) == 'check'
+                 and isinstance(st.value.func, ast.Attribute) and any(k.arg == 'fix' and isinstance(k.value, ast.Constant) and k.value.value is True for k in st.value.keywords)]
+        if not fixes: continue
+        n += 1
+        rcv = norm(fixes[0].value.func.value)
+        key = '%s :: %s.check(fix=True) on every normal exit' % (fi.short, rcv)
+        bad = flow.must_pass(fi.node, lambda x: x in fixes)
+        if bad:
+            b0 = bad[0]
+            run.violated(key, 'a path returns without the repair pass: connections missing, extra connections or orphan nodes left by earlier edits '
+                         'survive an operation that promises a valid mesh', where=fi.where(None if b0 == 'fall' else b0), robust=True)
+        else: run.ok(key, where=fi.where(fixes[0]))
+    if n == 0: run.unknown('mulgrids :: repairing operations', 'no call of check(fix=True) found', where='mulgrids.py')
+
+
 def check(run):
     run.guarded('LAYCOUNT', rule_laycount)
+    run.guarded('VALIDEXIT', rule_validexit)
+    run.guarded('NODEOWNER', rule_nodeowner)
     from .pred_common import rule_pred
     run.guarded('PRED', lambda r: rule_pred(r, floor=1, only=('mulgrid.set_column_num_layers',)))
     run.guarded('PAIR', rule_pair)
